@@ -5,13 +5,13 @@ package main
 // kernels are assembly and cannot be interpreted from SSA).
 
 import (
+	"fmt"
+	"go/types"
 	"math"
+	"math/big"
+	"reflect"
 	"strconv"
 	"strings"
-	"go/types"
-	"reflect"
-	"fmt"
-	"math/big"
 
 	"golang.org/x/tools/go/ssa"
 )
